@@ -124,12 +124,12 @@ Section WithOracle.
     unfold should_accept. rewrite !andb_true_iff, negb_true_iff, N.eqb_neq. tauto.
   Qed.
 
-  (* every branch of [admit] that acts on the message has passed IsValidMembership *)
+  (* every branch of [admission] that acts on the message has passed IsValidMembership *)
   Lemma acted_valid s x m :
-    acted (admit addr_of s x m) = true ->
+    acted (admission addr_of s x m) = true ->
     valid_membership addr_of (x_ops x) (m_idx m) (m_key m) = true.
   Proof.
-    unfold admit.
+    unfold admission.
     destruct (kind_of s); destruct (m_pay m); cbn [acted]; try discriminate.
     - destruct (should_accept addr_of (self1 x) (x_grp x) (x_ops x) (m_idx m) (m_key m)) eqn:Hs;
         cbn [andb]; [|discriminate].
@@ -149,7 +149,7 @@ Section WithOracle.
 
   Lemma admitted_implies_holds_index s x m :
     (length (x_ops x) <= 255)%nat -> m_idx m < 256 ->
-    acted (admit addr_of s x m) = true ->
+    acted (admission addr_of s x m) = true ->
     holds_index (x_ops x) (m_idx m) (addr_of (m_key m)).
   Proof.
     intros Hlen Hidx Ha. apply valid_membership_holds_index; try assumption.
@@ -158,7 +158,7 @@ Section WithOracle.
 
   (* for group sizes above 255 (not used by keep-core) the statement that survives *)
   Lemma admitted_implies_seat_wrapped s x m :
-    acted (admit addr_of s x m) = true ->
+    acted (admission addr_of s x m) = true ->
     nth_error (x_ops x) (N.to_nat (wrap_pred (m_idx m))) = Some (addr_of (m_key m)).
   Proof. intros Ha. apply valid_membership_exact. now apply acted_valid with (s := s). Qed.
 
@@ -168,9 +168,9 @@ Section WithOracle.
     | KFollower => In (m_idx m) (x_self x)
     | _ => m_idx m = self1 x
     end ->
-    acted (admit addr_of s x m) = false.
+    acted (admission addr_of s x m) = false.
   Proof.
-    unfold documents_self, admit. intros Hdoc Hself.
+    unfold documents_self, admission. intros Hdoc Hself.
     destruct (kind_of s) eqn:Hk; destruct (m_pay m); cbn [acted]; try reflexivity;
       try discriminate.
     - unfold should_accept. rewrite Hself, N.eqb_refl. reflexivity.
@@ -181,9 +181,9 @@ Section WithOracle.
   Qed.
 
   Lemma ignored_other_session s x m :
-    same_session x m = false -> acted (admit addr_of s x m) = false.
+    same_session x m = false -> acted (admission addr_of s x m) = false.
   Proof.
-    unfold same_session, admit. intros Hs.
+    unfold same_session, admission. intros Hs.
     destruct (kind_of s); destruct (m_pay m); cbn [acted]; try reflexivity.
     - rewrite Hs, andb_false_r. reflexivity.
     - rewrite Hs, andb_false_r. reflexivity.
@@ -208,9 +208,9 @@ Section WithOracle.
 
   Lemma ignored_excluded s x m :
     excluded_at s x (m_idx m) = true ->
-    acted (admit addr_of s x m) = false.
+    acted (admission addr_of s x m) = false.
   Proof.
-    unfold excluded_at, admit. intros Hex.
+    unfold excluded_at, admission. intros Hex.
     destruct (kind_of s); try discriminate; destruct (m_pay m); cbn [acted]; try reflexivity.
     - apply negb_true_iff in Hex. unfold should_accept. rewrite Hex, andb_false_r. reflexivity.
     - apply negb_true_iff in Hex. unfold should_accept. rewrite Hex, andb_false_r. reflexivity.
@@ -223,7 +223,7 @@ Section WithOracle.
     | KDone => ~ In (m_idx m) (x_attempt x)
     | KAnnounce | KFollower => False
     end ->
-    acted (admit addr_of s x m) = false.
+    acted (admission addr_of s x m) = false.
   Proof.
     intros H. apply ignored_excluded. unfold excluded_at.
     destruct (kind_of s); try contradiction.
@@ -248,7 +248,7 @@ Section WithOracle.
   (* the done check does NOT ignore the member's own index (it counts the member's own done
      message): the self rule is documented exactly for the other 29 steps *)
   Lemma done_check_counts_self :
-    exists x m, In (m_idx m) (x_self x) /\ admit (fun k => k) SigningDoneCheck x m = Stored.
+    exists x m, In (m_idx m) (x_self x) /\ admission (fun k => k) SigningDoneCheck x m = Stored.
   Proof.
     exists {| x_self := [1]; x_ops := [7; 8]; x_grp := {| g_size := 2; g_ia := []; g_dq := [] |};
               x_session := 3; x_protocol := 9; x_leader := 7; x_allowed := []; x_timeout := 100;
@@ -268,18 +268,18 @@ Section WithOracle.
     holds_index (x_ops x) (m_idx m) (addr_of (m_key m)).
   Proof.
     induction msgs as [|m0 t IH]; intros x m o Hlen Hidx Hin Hact; cbn [run] in Hin; [destruct Hin|].
-    assert (Hhead : (m, o) = (m0, admit addr_of s x m0) ->
+    assert (Hhead : (m, o) = (m0, admission addr_of s x m0) ->
                     holds_index (x_ops x) (m_idx m) (addr_of (m_key m))).
     { intros He. injection He as Hm Ho. subst m o.
       apply admitted_implies_holds_index with (s := s); try assumption.
       apply Hidx. now left. }
-    assert (Htail : In (m, o) (run addr_of s (after s x m0 (admit addr_of s x m0)) t) ->
+    assert (Htail : In (m, o) (run addr_of s (after s x m0 (admission addr_of s x m0)) t) ->
                     holds_index (x_ops x) (m_idx m) (addr_of (m_key m))).
-    { intros Ht. rewrite <- (after_ops s x m0 (admit addr_of s x m0)).
+    { intros Ht. rewrite <- (after_ops s x m0 (admission addr_of s x m0)).
       apply IH with (o := o); try assumption.
       - now rewrite after_ops.
       - intros m' Hm'. apply Hidx. now right. }
-    destruct (admit addr_of s x m0) eqn:Hadm; cbn [In] in Hin;
+    destruct (admission addr_of s x m0) eqn:Hadm; cbn [In] in Hin;
       try (destruct Hin as [Hin|Hin]; [apply Hhead; now symmetry | now apply Htail]).
   Qed.
 
@@ -314,7 +314,7 @@ Section WithOracle.
   Qed.
 
   Lemma same_session_of_acted s x m :
-    acted (admit addr_of s x m) = true -> same_session x m = true.
+    acted (admission addr_of s x m) = true -> same_session x m = true.
   Proof.
     intros Ha. destruct (same_session x m) eqn:Hs; [reflexivity|].
     rewrite ignored_other_session in Ha by assumption. discriminate.
@@ -324,12 +324,12 @@ Section WithOracle.
   Lemma model_outputs_pass_spec s x m :
     (length (x_ops x) <= 255)%nat -> m_idx m < 256 ->
     (kind_of s <> KFollower -> x_self x = [self1 x]) ->
-    admit addr_of s x m <> Malformed ->
-    spec_ok s x m (addr_of (m_key m)) (admit addr_of s x m) = true.
+    admission addr_of s x m <> Malformed ->
+    spec_ok s x m (addr_of (m_key m)) (admission addr_of s x m) = true.
   Proof.
     intros Hlen Hidx Hself Hnm.
-    destruct (acted (admit addr_of s x m)) eqn:Ha.
-    2:{ unfold spec_ok. destruct (admit addr_of s x m); try reflexivity; try discriminate.
+    destruct (acted (admission addr_of s x m)) eqn:Ha.
+    2:{ unfold spec_ok. destruct (admission addr_of s x m); try reflexivity; try discriminate.
         now elim Hnm. }
     assert (H1 : holds_index_b (x_ops x) (m_idx m) (addr_of (m_key m)) = true).
     { apply holds_index_b_true. now apply admitted_implies_holds_index with (s := s). }
@@ -345,7 +345,7 @@ Section WithOracle.
     { destruct (excluded_at s x (m_idx m)) eqn:Ho; [|reflexivity].
       rewrite ignored_excluded in Ha by assumption. discriminate. }
     unfold spec_ok. rewrite H1, H2, H3, H4.
-    destruct (admit addr_of s x m); try reflexivity. now elim Hnm.
+    destruct (admission addr_of s x m); try reflexivity. now elim Hnm.
   Qed.
 End WithOracle.
 
@@ -356,10 +356,10 @@ Example multi_seat_operator :
               x_grp := {| g_size := 5; g_ia := []; g_dq := [4] |};
               x_session := 7; x_protocol := 0; x_leader := 0; x_allowed := []; x_timeout := 0;
               x_done := []; x_attempt := [] |} in
-  map (fun i => admit (fun k => k) GjkrEphemeralKey x {| m_idx := i; m_key := 20; m_pay := PPlain 7 |})
+  map (fun i => admission (fun k => k) GjkrEphemeralKey x {| m_idx := i; m_key := 20; m_pay := PPlain 7 |})
       [0; 1; 2; 3; 4; 5; 6; 255]
   = [Ignored; Ignored; Stored; Stored; Ignored; Ignored; Ignored; Ignored]
-  /\ admit (fun k => k) GjkrEphemeralKey x {| m_idx := 4; m_key := 30; m_pay := PPlain 7 |} = Ignored
-  /\ admit (fun k => k) GjkrEphemeralKey x {| m_idx := 5; m_key := 40; m_pay := PPlain 7 |} = Stored
-  /\ admit (fun k => k) GjkrEphemeralKey x {| m_idx := 5; m_key := 40; m_pay := PPlain 8 |} = Ignored.
+  /\ admission (fun k => k) GjkrEphemeralKey x {| m_idx := 4; m_key := 30; m_pay := PPlain 7 |} = Ignored
+  /\ admission (fun k => k) GjkrEphemeralKey x {| m_idx := 5; m_key := 40; m_pay := PPlain 7 |} = Stored
+  /\ admission (fun k => k) GjkrEphemeralKey x {| m_idx := 5; m_key := 40; m_pay := PPlain 8 |} = Ignored.
 Proof. vm_compute. repeat split; reflexivity. Qed.
